@@ -82,6 +82,16 @@ class Result:
 CROSS = {'done': set(), 'checked': 0, 'agree': 0, 'skipped': 0, 'disagree': []}
 
 
+def int_term(x):
+    """z3 Int term of a concrete or symbolic integer result (SNum: its term, SInt: value of the bit-vector, unsigned)"""
+    from symx.values import SNum, SInt
+    if isinstance(x, SNum):
+        return x.t
+    if isinstance(x, SInt):
+        return x.to_snum().t
+    return z3.IntVal(int(x))
+
+
 def cross_check(kind, terms, verdict):
     """second solver: the first query of every obligation kind in this process is exported to SMT-LIB2 and decided again by
     the z3 4.8.12 binary; a different verdict makes the run inconclusive, `unknown` / errors / oversize are only counted"""
